@@ -702,8 +702,9 @@ func runAvc(c *runner.Ctx) {
 			continue
 		}
 		used[id] = true
-		p := h264.GenPPS(r, id, spsRecs[si], h264.PPSOpt{NoSliceGroups: r.Chance(1, 3)})
+		p := h264.GenPPS(r, id, spsRecs[si], h264.PPSOpt{NoSliceGroups: r.Chance(1, 3), SliceGroupIdRuns: r.Chance(1, 2)})
 		cd := p.Encode(spsRecs[si], uint(r.Range(1, 3)))
+		seenAvcPPSPeek(c, cd)
 		ppsRecs = append(ppsRecs, p)
 		ppsCoded = append(ppsCoded, cd)
 		hashParts = append(hashParts, cd.NAL)
@@ -835,5 +836,40 @@ func replayAvc(c *runner.Ctx, w *witness) {
 		checkAvcSlice(c, w, spsMap, ppsMap)
 	case "decconf":
 		checkAvcDecConf(c, w)
+	}
+}
+
+// seenAvcPPSPeek records where the more_rbsp_data( ) decision of a PPS (7.3.2.2,
+// right after redundant_pic_cnt_present_flag) falls: bit alignment, the
+// emulation prevention bytes before/after it and what follows.
+func seenAvcPPSPeek(c *runner.Ctx, cd *h264.Coded) {
+	pos := -1
+	for _, el := range cd.Elems {
+		if el.Name == "redundant_pic_cnt_present_flag" {
+			pos = el.Pos + 1
+		}
+	}
+	if pos < 0 {
+		return
+	}
+	before, after := epbsAfter(cd.NAL, 1, pos/8)
+	more := "more-data"
+	if cd.Has("pps/no-more-rbsp-data") {
+		more = "trailing-bits"
+	}
+	c.Seen("avc.pps.more_rbsp_data", fmt.Sprintf("decision-at-bit%%8=%d,%s", pos%8, more))
+	eb := "0"
+	switch {
+	case before >= 3:
+		eb = "3+"
+	case before > 0:
+		eb = fmt.Sprint(before)
+	}
+	c.Seen("avc.pps.more_rbsp_data", "emulation-prevention-bytes-before="+eb)
+	if after > 0 {
+		c.Seen("avc.pps.more_rbsp_data", "emulation-prevention-bytes-after>0")
+	}
+	if before+after > 0 {
+		c.Count("avc.pps.with_emulation_prevention", 1)
 	}
 }
